@@ -3,7 +3,7 @@
 Colour at p = ramp(param(M^-1 p; coords)).  Proved here: how attributes become numbers (percentages against the right
 reference length, linked focal defaults, unknown attributes rejected), bounding-box units -> user space, the
 translation-folding lemma, and the CTM / element-transform composition used for gradients.  The composition order at the
-call sites is in order_static.callsite_obligations; whole documents are the bounded part.
+call sites is decided by the symbolic runs of tree_runs.py / trace_runs.py; whole documents are the bounded part.
 """
 from __future__ import annotations
 
